@@ -56,3 +56,24 @@ Proof. vm_compute. repeat split; reflexivity. Qed.
 Print Assumptions c03_target_equiv. Print Assumptions c03_checker_sound. Print Assumptions c03_tparity_shape.
 Print Assumptions c03_tparity_single_step. Print Assumptions c03_tparity_failure_iff. Print Assumptions c03_tparity_T1.
 Print Assumptions c03_tparity_sym. Print Assumptions c03_path_product.
+
+(* ---- re-exported by tools/reexport.py: statements copied from `Check`, closed by `exact` ---- *)
+From QV Require Import Decoders.SmwpmWalk Decoders.SmwpmPath.
+Theorem c03_smwpm_path_syndrome_all : forall rows cols : Z, 3 <= rows -> 3 <= cols -> forall a b : Z * Z, smwpm_node_ok rows cols a = true -> smwpm_node_ok rows cols b = true -> LatticeArith.rotplanar_is_z_plaquette a = LatticeArith.rotplanar_is_z_plaquette b -> exists o : bsf, smwpm_path_operator rows cols a b = Some o /\ length o = (RotPlanar.rp_n rows cols + RotPlanar.rp_n rows cols)%nat /\ syndrome_of (Code.stabs (RotPlanar.rotplanar_code rows cols)) o = xorv (SampleRecovery.rp_ind rows cols a) (SampleRecovery.rp_ind rows cols b).
+Proof. exact smwpm_path_syndrome_all. Qed.
+Theorem c03_smwpm_path_defined_iff : forall (rows cols : Z) (a b : Z * Z), smwpm_path_operator rows cols a b <> None <-> LatticeArith.rotplanar_is_z_plaquette a = LatticeArith.rotplanar_is_z_plaquette b.
+Proof. exact smwpm_path_defined_iff. Qed.
+Theorem c03_smwpm_recovery_syndrome_all : forall rows cols : Z, 3 <= rows -> 3 <= cols -> forall clusters : list (list tidx), Forall (smwpm_cluster_ok rows cols) clusters -> Forall (fun cl : list tidx => smwpm_cluster_split cl <> None) clusters -> exists r : bsf, smwpm_recovery rows cols clusters = Some r /\ length r = (RotPlanar.rp_n rows cols + RotPlanar.rp_n rows cols)%nat /\ r = xsum (RotPlanar.rp_n rows cols + RotPlanar.rp_n rows cols) (map (smwpm_pathop_tot rows cols) (smwpm_all_pairs clusters)) /\ syndrome_of (Code.stabs (RotPlanar.rotplanar_code rows cols)) r = xsum (length (RotPlanar.rp_plaquette_indices rows cols)) (map (smwpm_pair_ind rows cols) (smwpm_all_pairs clusters)).
+Proof. exact smwpm_recovery_syndrome_all. Qed.
+Theorem c03_smwpm_recovery_even_all : forall rows cols : Z, 3 <= rows -> 3 <= cols -> forall clusters : list (list tidx), Forall (smwpm_cluster_ok rows cols) clusters -> Forall smwpm_cluster_even clusters -> exists r : bsf, smwpm_recovery rows cols clusters = Some r /\ length r = (RotPlanar.rp_n rows cols + RotPlanar.rp_n rows cols)%nat /\ syndrome_of (Code.stabs (RotPlanar.rotplanar_code rows cols)) r = map (fun q : Z * Z => PlanarAll.xsumb (RotPlanar.rc_idx_eqb q) (map smwpm_xy (concat clusters))) (RotPlanar.rp_plaquette_indices rows cols).
+Proof. exact smwpm_recovery_even_all. Qed.
+Theorem c03_smwpm_walk_fuel_stable : forall (fuel extra : nat) (n e : Z * Z), smwpm_dist n e <= Z.of_nat fuel -> smwpm_walk (fuel + extra) n e = smwpm_walk fuel n e.
+Proof. exact smwpm_walk_fuel_stable. Qed.
+Theorem c03_smwpm_walk_last : forall (fuel : nat) (n e : Z * Z), smwpm_dist n e <= Z.of_nat fuel -> last (smwpm_walk fuel n e) n = e.
+Proof. exact smwpm_walk_last. Qed.
+Print Assumptions c03_smwpm_path_syndrome_all.
+Print Assumptions c03_smwpm_path_defined_iff.
+Print Assumptions c03_smwpm_recovery_syndrome_all.
+Print Assumptions c03_smwpm_recovery_even_all.
+Print Assumptions c03_smwpm_walk_fuel_stable.
+Print Assumptions c03_smwpm_walk_last.
